@@ -1,6 +1,7 @@
 package eng
 
 import (
+	"fmt"
 	"go/token"
 	"go/types"
 	"math/big"
@@ -582,7 +583,10 @@ func (x *exec) convert(v Value, from, to types.Type, s *State) Value {
 	rf, rt := repOf(from), repOf(to)
 	switch {
 	case rf == RInt && rt == RInt:
-		t := v.(*Term)
+		t, isT := v.(*Term)
+		if !isT {
+			return PoisonV{fmt.Sprintf("conversion of a non-scalar value (%T) -- a name in a specification probably resolves to a different variable than intended", v)}
+		}
 		flo, fhi, ok1 := intRange(from)
 		tlo, thi, ok2 := intRange(to)
 		if ok1 && ok2 && tlo.Cmp(flo) <= 0 && fhi.Cmp(thi) <= 0 {
